@@ -265,3 +265,36 @@ func (w *World) TokenID(token string) string {
 }
 
 var _ = op.AccessTokenTypeJWT
+
+// VerifyWithOPKey verifies a compact JWS against the provider's published signing key and returns the payload.
+func (w *World) VerifyWithOPKey(token string) (map[string]any, error) {
+	k := w.Store.SigningKeyOf()
+	jws, err := jose.ParseSigned(token, []jose.SignatureAlgorithm{k.Alg})
+	if err != nil {
+		return nil, err
+	}
+	payload, err := jws.Verify(k.Public())
+	if err != nil {
+		return nil, err
+	}
+	var m map[string]any
+	if err := json.Unmarshal(payload, &m); err != nil {
+		return nil, err
+	}
+	return m, nil
+}
+
+// AudContains reports whether a decoded "aud" claim (string or array) contains v.
+func AudContains(aud any, v string) bool {
+	switch a := aud.(type) {
+	case string:
+		return a == v
+	case []any:
+		for _, x := range a {
+			if s, ok := x.(string); ok && s == v {
+				return true
+			}
+		}
+	}
+	return false
+}
